@@ -6,6 +6,15 @@ pub fn num<T: TryFrom<i64>>(v: &Value) -> Option<T> {
     T::try_from(v.as_i64()?).ok()
 }
 
+/// a number of Big.tla ({"neg": .., "m": [limbs base 2^16, little endian]}): values beyond TLC's own integers
+pub fn bignum<T: TryFrom<i128>>(v: &Value) -> Option<T> {
+    T::try_from(crate::prim::big(v)).ok()
+}
+
+pub fn big_json<T: Into<i128>>(x: T) -> Value {
+    crate::prim::to_big(x.into())
+}
+
 pub fn string(v: &Value) -> Option<String> {
     v.as_array()?
         .iter()
